@@ -70,6 +70,12 @@ func (e *Engine) verifyFunc(key string) (res *FuncResult) {
 		fr.regs[p] = v
 		all = append(all, v)
 		x.inputs = append(x.inputs, toComps(p.Type(), v)...)
+		if b, ok := types.Unalias(p.Type()).Underlying().(*types.Basic); ok && b.Info()&types.IsString != 0 {
+			// no Go string is longer than the address space allows
+			if t, ok := v.(*Term); ok {
+				st.assume(Le(mk("str.len", IntS, t), IntLit(1<<62)))
+			}
+		}
 	}
 	env := x.contractEnv(st, c, sig, all)
 	env.old, env.oldTop = heapSnap{}, st.top0
